@@ -43,10 +43,32 @@ import (
 //   - every service type must be unique
 func NetworkDocumentValidator() did.Validator {
 	return &did.MultiValidator{Validators: []did.Validator{
+		nilEntryValidator{},
 		did.W3CSpecValidator{},
 		verificationMethodValidator{},
 		basicServiceValidator{},
 	}}
+}
+
+// nilEntryValidator rejects documents with a null entry in verificationMethod or in one of the verification relationships.
+// Such entries unmarshal to nil pointers, which the validators that follow (W3CSpecValidator) dereference.
+type nilEntryValidator struct{}
+
+func (nilEntryValidator) Validate(document did.Document) error {
+	for _, method := range document.VerificationMethod {
+		if method == nil {
+			return errors.New("invalid verificationMethod: null entry")
+		}
+	}
+	for _, relationships := range []did.VerificationRelationships{document.Authentication, document.AssertionMethod,
+		document.KeyAgreement, document.CapabilityInvocation, document.CapabilityDelegation} {
+		for _, relationship := range relationships {
+			if relationship.VerificationMethod == nil {
+				return errors.New("invalid verification relationship: null entry")
+			}
+		}
+	}
+	return nil
 }
 
 // ManagedDocumentValidator extends NetworkDocumentValidator with extra safety checks to be performed on DID documents managed by this node before they are published on the network.
